@@ -14,8 +14,8 @@ LEVEL = "exploration"
 BATCH = 2
 CASE_TIMEOUT = 600
 MIN_NONTRIVIAL = 30
-REQUIRED_COUNTERS = ["graphs", "jobs", "packages_checked", "job_dependency_edges_checked", "ir_steps_compared", "multi_variant_recipes"]
-EXEC_COUNTERS = ["node_jobs_executed", "node_artifacts_compared", "node_copied_upstream_artifacts"]
+REQUIRED_COUNTERS = ["graphs", "jobs", "packages_checked", "job_dependency_edges_checked", "ir_steps_compared", "multi_variant_recipes",
+                     "node_jobs_executed", "node_artifacts_compared", "node_copied_upstream_artifacts"]
 RULE = ("generated recipe graphs with multiPackages, several variants of one recipe (same recipe under different environments), tools and "
         "sandboxes whose providers depend on sibling variants, crosswise multiPackage dependencies (a-1 -> b-2, b-1 -> a-2), isolate regexes, "
         "several roots, sandbox on/off. distinct_nontrivial = distinct (job count, max variants per recipe, isolate?, sandbox?) shapes with >= 2 jobs.")
@@ -104,11 +104,14 @@ def run_exec(case):
     from lib import e2e, treecanon
     rnd = random.Random(case["seed"])
     counters = dict.fromkeys(REQUIRED_COUNTERS, 0)
-    counters.update({"node_jobs_executed": 0, "node_artifacts_compared": 0, "node_copied_upstream_artifacts": 0})
     viol, sigs = [], set()
     feats = rnd.sample(["classes", "multi", "pdeps", "weak", "fwd", "tools", "menv", "if", "roots2", "checkoutscript"], rnd.randrange(2, 6)) + ["src", "tools"]
     m = projgen.gen_model(rnd, rnd.randrange(4, 8), feats)
     isolate = rnd.choice([None, None, ".*[135]$", ".*"])
+    for name, r in m["recipes"].items():
+        # import SCMs travel inside the job specification: half of them go to a sub-directory of the source workspace
+        if r.get("src") and not r.get("scm") and rnd.random() < 0.5:
+            r["scm"] = {"scm": "import", "url": "src/" + (r["src"] if isinstance(r["src"], str) else name.replace("/", "_")), "dir": rnd.choice(["sub", "a/b", "imp.d"]), "prune": True}
     with common.scratch("c20x") as base:
         P = os.path.join(base, "proj"); projgen.write_project(P, m)
         L = os.path.join(base, "local", "p"); projgen.write_project(L, m)
@@ -453,6 +456,8 @@ def run_case(case):
 
 LEVEL_TEXT = ("Exploration: the real job generator runs on generated, cycle-prone recipe graphs; job graph structure is judged by an independent "
               "toposort / reachability walk and every job specification is decoded like the build node does and compared step by step (ids, "
-              "scripts, environment, tools, arguments, workspaces) with the live objects.")
-LEVEL_NOTE = "No Jenkins server is involved (job XML upload is out of reach); jobs are not executed in the quick tier."
-TECHNIQUE = "structural invariant monitor on genJenkinsJobs output + IR round-trip differential (decoded job spec vs live Step objects)"
+              "scripts, environment, tools, arguments, workspaces) with the live objects; a build-node emulation executes the exported job configurations "
+              "with the real `bob _jexec run` (upstream artifacts copied as the CopyArtifact steps say, published artifacts archived) and compares "
+              "every artifact with a local release build (build-id, result-hash, content, published .buildid).")
+LEVEL_NOTE = "No Jenkins server is involved (job XML upload is out of reach): the harness plays the server for exported job configurations (artifacts.copy=jenkins, import SCMs; Jenkins SCM plugins are out of reach)."
+TECHNIQUE = "structural invariant monitor on genJenkinsJobs output + IR round-trip differential (decoded job spec vs live Step objects) + differential execution monitor (jobs executed by the real bob _jexec on an emulated build node vs local release build)"
